@@ -2083,9 +2083,16 @@ pub fn generate(data: &[u8], cfg: &GenCfg) -> Generated {
             "custom", "", "names", ".debu", "producer", "linking", "target_features", "ünï", "custom", "sourceMappingURL",
             "reloc.CODE", "dylink.0", "reloc..debug_info", "_.debug", "name ", "Name", "producers\0",
         ];
+        // sections walrus does interpret (dropped with DWARF generation off),
+        // placed between the others: only in the profile made for C12
+        // (customs = 2), their payload is not well-formed DWARF
+        let debug_names = [".debug_str", ".debug_info"];
         for _ in 0..n {
             let slot = ch.below(14);
             let mut name = ch.pick(&names).to_string();
+            if cfg.customs == 2 && ch.chance(1, 6) {
+                name = ch.pick(&debug_names).to_string();
+            }
             let len = ch.below(10);
             let data = ch.bytes(len);
             // names whose length needs a two-byte LEB, and short names whose
@@ -2285,13 +2292,19 @@ pub fn generate(data: &[u8], cfg: &GenCfg) -> Generated {
     // name section (after data, where the spec places it)
     if want_names {
         let mut ns = we::NameSection::new();
+        // one case in six spreads the names over two `name` sections
+        let split_names = ch.chance(1, 6);
         if ch.bool() {
             ns.module(&gen_name(ch, "module", 0));
         }
         let mut pick_names = |ch: &mut Ch, n: usize, prefix: &str| -> we::NameMap {
             let mut nm = we::NameMap::new();
+            // wat2wasm writes an empty name for every local it has no name for
+            let all_empty = prefix == "loc" && ch.chance(1, 8);
             for i in 0..n {
-                if ch.chance(2, 3) {
+                if all_empty {
+                    nm.append(i as u32, "");
+                } else if ch.chance(2, 3) {
                     nm.append(i as u32, &gen_name(ch, prefix, i));
                 }
             }
@@ -2334,6 +2347,10 @@ pub fn generate(data: &[u8], cfg: &GenCfg) -> Generated {
             }
             ns.locals(&inm);
         }
+        if split_names {
+            m.section(&ns);
+            ns = we::NameSection::new();
+        }
         if ch.chance(1, 2) {
             let nm = pick_names(ch, env.types.len(), "type");
             ns.types(&nm);
@@ -2369,6 +2386,14 @@ pub fn generate(data: &[u8], cfg: &GenCfg) -> Generated {
         f.value("clang", "14.0.6");
         if ch.bool() {
             f.value("walrus", "0.1.0");
+            // an earlier walrus run need not be the last tool recorded
+            if ch.bool() {
+                f.value("wasm-opt", "116");
+            }
+        }
+        // a field may list no values at all
+        if ch.chance(1, 8) {
+            f = we::ProducersField::new();
         }
         ps.field("processed-by", &f);
         if ch.bool() {
